@@ -363,11 +363,12 @@ def gen_cases(ctx):
                     if layout == 'endpoint' and kind == 'openapi' and base == '/api':
                         yield dict(set='served', integration=integration, base=base, layout=layout, kind=kind, noprefix=True)
     # two threads generating from one specification object: methods with different component prefixes / error lists / tags
-    K = 8
+    K = 16
     for kind in ('openapi-3.1', 'openrpc'):
-        for atoms in ((7, 2), (7, 5)):
+        for atoms in ((7, 2), (7, 5)) + (() if ctx.quick else ((2, 7), (5, 7), (7, 2, 5))):
             for k in range(K):
-                yield dict(set='threads', kind=kind, atoms=list(atoms), budget=ctx.pick(1, 2), shard=(k, K, 1))
+                # (two preemptions: one thread is interrupted, the other starts and is interrupted in turn)
+                yield dict(set='threads', kind=kind, atoms=list(atoms), budget=2, shard=(k, K, 1))
     xs = list(range(len(CORE), len(COREX)))
     for stack in ('pydantic', 'docstring', 'docstring+pydantic', 'default'):
         for kind in KINDS:
@@ -679,6 +680,41 @@ def run_served(case, rec):
         if got != registered[(url, name)]:
             rec.violation('C16:%s:served:a documented path#method does not reach the method it documents' % speckind, dict(c, url=url, method=name),
                           expected=registered[(url, name)], observed=repr(r))
+    # the application goes on living: a method is added and another one registered again with a new signature AFTER the document was
+    # served; the document served next describes the registry as it is then
+    if layout != 'two-specs':
+        if is_async:
+            async def late(z: int = 0) -> str:
+                return 'late'
+
+            async def alpha2(q: str = 'x') -> str:
+                return 'alpha2'
+        else:
+            def late(z: int = 0) -> str:
+                return 'late'
+
+            def alpha2(q: str = 'x') -> str:
+                return 'alpha2'
+        rpc.dispatcher.add(late, name='late')
+        rpc.dispatcher.add(alpha2, name='alpha')
+        rep2 = integ.get('%s/%s' % (base, spec.path.lstrip('/')))
+        rec.transitions += 1
+        try:
+            doc2 = json.loads(rep2.body.decode('utf-8'))
+            if speckind == 'openrpc':
+                names2 = {m.get('name') for m in doc2.get('methods', [])}
+                alpha_params = c17.openrpc_params(doc2, 'alpha')[0]
+            else:
+                names2 = {key.partition('#')[2] for key in doc2.get('paths', {}) if key.partition('#')[0] == base}
+                schema = c17.resolve(doc2, doc2['paths']['%s#alpha' % base]['post']['requestBody']['content']['application/json']['schema'])
+                alpha_params = sorted(c17.resolve(doc2, schema['properties']['params']).get('properties', {}))
+            seen2 = (sorted(names2), alpha_params)
+        except Exception as e:   # noqa
+            seen2 = 'unreadable: %s: %s' % (type(e).__name__, e)
+        want2 = (sorted({n for u, n in registered if u == base} | {'late'}), ['q'])
+        if seen2 != want2:
+            rec.violation('C16:%s:served:the document served after a later registration does not describe the registry as it is then' % speckind, c,
+                          expected=want2, observed=seen2)
     h = hashlib.sha1((speckind + rep.body.decode('utf-8')).encode()).hexdigest()
     k = 'openapi-3.1' if speckind == 'openapi' else 'openrpc'
     rec.blobs.setdefault(h, (k, json.dumps(doc, sort_keys=True), c))
